@@ -99,9 +99,19 @@ func comLine(text, com string, occs ...Occ) GLine {
 func fileURI(p string) string {
 	segs := strings.Split(p, "/")
 	for i, sg := range segs {
-		segs[i] = url.PathEscape(sg)
+		// like VS Code: more than the path grammar requires
+		segs[i] = strings.NewReplacer("+", "%2B", "@", "%40", "=", "%3D").Replace(url.PathEscape(sg))
 	}
 	return "file://" + strings.Join(segs, "/")
+}
+
+// normURI spells a file: URI canonically (decoded), so that the client's and
+// the server's spelling of one and the same path compare equal.
+func normURI(u string) string {
+	if d, err := url.PathUnescape(u); err == nil {
+		return d
+	}
+	return u
 }
 
 // GenJText draws the text of version v of doc.
@@ -232,8 +242,11 @@ func NewJWorld(c *simrt.Chooser, workspace bool, flags ...string) *JWorld {
 	// its URI is then percent-encoded while include lines, the disk and the
 	// server's path keys are not
 	w.BName = "b.journal"
-	if c.Pct("unusual-file-name", 25) {
-		w.BName = "b ü.journal"
+	if c.Pct("unusual-file-name", 30) {
+		// "+" is a character Go's URI encoder leaves alone while editors
+		// percent-encode it: the client's spelling of the URI then differs from
+		// the one the server would derive from the path
+		w.BName = []string{"b ü.journal", "b+ü x.journal"}[c.Choose("unusual-name", 2)]
 	}
 	for i, p := range jPaths {
 		if i == 2 {
